@@ -25,6 +25,7 @@ type SUR struct {
 	Quota    uint32 `json:"quota"`
 	Rel      string `json:"rel,omitempty"` // cost-1 | cost | cost+1: value relative to the unit cost
 	Unknown  bool   `json:"unknown,omitempty"`
+	Omit     bool   `json:"omit,omitempty"` // the optional ConsumedUnits / MonetaryQuota AVPs are not sent at all (= 0)
 }
 
 type C08Case struct {
@@ -54,6 +55,7 @@ func genC08(t *rapid.T) C08Case {
 			r.Quota = rapid.Uint32Range(0, 100000).Draw(t, "quota")
 		}
 		r.Unknown = rapid.IntRange(0, 9).Draw(t, "unknown") == 0
+		r.Omit = rapid.IntRange(0, 4).Draw(t, "omit") == 0
 		c.Reqs = append(c.Reqs, r)
 	}
 	return c
@@ -78,6 +80,8 @@ func decimalOf(s string) (*big.Rat, bool) {
 
 var ratingPeer *Peer
 
+var omitNext bool
+
 func sendSUR(p *Peer, supi string, rg uint32, subType int, consumed, quota uint32, wait time.Duration) (*cdt.ServiceUsageResponse, error) {
 	sur := &cdt.ServiceUsageRequest{SessionId: "verif-sur", OriginHost: "verif-client", OriginRealm: "verif", DestinationRealm: "go-diameter", DestinationHost: "server",
 		UserName: datatype.OctetString("CHF"), ActualTime: datatype.Time(time.Now()),
@@ -86,6 +90,10 @@ func sendSUR(p *Peer, supi string, rg uint32, subType int, consumed, quota uint3
 	msg := diam.NewRequest(ccode.ServiceUsageMessage, ccode.Re_interface, dict.Default)
 	if err := msg.Marshal(sur); err != nil {
 		return nil, fmt.Errorf("HARNESS marshal: %w", err)
+	}
+	if omitNext {
+		omitNext = false
+		stripOptionalRatingAVPs(msg)
 	}
 	ans, err := p.Do(msg, wait)
 	if err != nil {
@@ -154,7 +162,14 @@ func judgeC08(c C08Case) *h.Verdict {
 		if r.Unknown {
 			wait = 100 * time.Millisecond
 		}
+		if r.Omit {
+			omitNext = true
+			consumed, quota = 0, 0 // an absent optional member counts as 0
+		}
 		sua, err := sendSUR(ratingPeer, who, rg, r.SubType, consumed, quota, wait)
+		if r.Omit {
+			v.Label("optional-avps-omitted")
+		}
 		desc := fmt.Sprintf("step %d: SUR subtype %d consumed %d quota %d, stored unit cost %q", step, r.SubType, consumed, quota, c.Cost)
 		if err != nil {
 			ratingPeer.Close()
@@ -283,4 +298,27 @@ func TestC08Agreement(t *testing.T) {
 	h.Run(t, "C08", "agreement", func(t *rapid.T) agreeCase {
 		return agreeCase{Cost: rapid.SampledFrom([]string{"1", "2", "7", "10", "999", "65536", "4294967295", "10.0", "2.50", "1.5", "0.5"}).Draw(t, "cost")}
 	}, judgeAgree)
+}
+
+// stripOptionalRatingAVPs removes ConsumedUnits and MonetaryQuota from the Service-Rating group of a SUR
+// (both are optional in the dictionary; a consumer that has nothing to report does not send them).
+func stripOptionalRatingAVPs(m *diam.Message) {
+	for _, a := range m.AVP {
+		if a.Code != ccode.ServiceRating {
+			continue
+		}
+		g, ok := a.Data.(*diam.GroupedAVP)
+		if !ok {
+			continue
+		}
+		var kept []*diam.AVP
+		for _, x := range g.AVP {
+			if x.Code == ccode.ConsumedUnits || x.Code == ccode.MonetaryQuota {
+				continue
+			}
+			kept = append(kept, x)
+		}
+		g.AVP = kept
+		m.Header.MessageLength = uint32(m.Len())
+	}
 }
